@@ -257,6 +257,39 @@ enum EB<'a> {
     Unit2,
 }
 
+/// Variants whose wire name is not their Rust identifier (what the code generator emits for IDL
+/// names such as `IOError`), next to variants that differ from them only in spelling.
+#[derive(Debug, PartialEq, Clone, zlink_core::ReplyError)]
+#[zlink(interface = "org.ex.C", crate = "zlink_core")]
+enum EC<'a> {
+    #[zlink(rename = "IOError")]
+    IoError,
+    #[zlink(rename = "DNSFailure")]
+    DnsFailure {
+        #[zlink(rename = "hostName")]
+        host: &'a str,
+        tries: u8,
+    },
+    Xb,
+    #[zlink(rename = "XB")]
+    Xb2 {
+        n: u8,
+    },
+    #[zlink(rename = "lower_case")]
+    LowerCase,
+}
+
+/// A name that is NOT the wire name of any variant must not decode as the error type.
+fn wrong_name_case<'a, E>(tname: &str, text: &'a str, sink: &mut Sink<'_>)
+where
+    E: Deserialize<'a> + std::fmt::Debug,
+{
+    match serde_json::from_str::<E>(text) {
+        Err(_) => sink.pass(H64::new().s(tname).s(text).get()),
+        Ok(d) => sink.fail("envelope:undeclared-error-name-accepted", format!("`{text}` decoded as {d:?} although {tname} declares no error of that wire name"), json!({"group": "error", "type": tname, "text": text})),
+    }
+}
+
 fn strip_nulls(v: &Value) -> Value {
     match v {
         Value::Object(m) => Value::Object(m.iter().filter(|(_, x)| !x.is_null()).map(|(k, x)| (k.clone(), strip_nulls(x))).collect()),
@@ -347,6 +380,26 @@ fn all_error_cases(sink: &mut Sink<'_>) {
     let t = "EB<'_>";
     error_case(t, &EB::Unit2, "b.Unit2", None, sink);
     error_case(t, &EB::Borrowed { what: "thing", n: u64::MAX }, "b.Borrowed", Some(json!({"what": "thing", "n": u64::MAX})), sink);
+    let t = "EC<'_>";
+    error_case(t, &EC::IoError, "org.ex.C.IOError", None, sink);
+    error_case(t, &EC::LowerCase, "org.ex.C.lower_case", None, sink);
+    error_case(t, &EC::Xb, "org.ex.C.Xb", None, sink);
+    error_case(t, &EC::Xb2 { n: 9 }, "org.ex.C.XB", Some(json!({"n": 9})), sink);
+    error_case(t, &EC::DnsFailure { host: "h.example", tries: 3 }, "org.ex.C.DNSFailure", Some(json!({"hostName": "h.example", "tries": 3})), sink);
+    for text in [
+        r#"{"error":"org.ex.C.IoError"}"#,
+        r#"{"error":"org.ex.C.DnsFailure","parameters":{"hostName":"h","tries":1}}"#,
+        r#"{"error":"org.ex.C.Xb2","parameters":{"n":1}}"#,
+        r#"{"error":"org.ex.C.LowerCase"}"#,
+        r#"{"error":"org.ex.C.DNSFailure","parameters":{"host":"h","tries":1}}"#,
+        r#"{"error":"org.ex.D.IOError"}"#,
+        r#"{"error":"IOError"}"#,
+    ] {
+        wrong_name_case::<EC<'_>>(t, text, sink);
+    }
+    for text in [r#"{"error":"org.ex.A.plain"}"#, r#"{"error":"org.ex.B.Plain"}"#, r#"{"error":"org.ex.A.Renamed","parameters":{"rust_name":1,"second":true}}"#, r#"{"parameters":{"code":1,"msg":"m"}}"#] {
+        wrong_name_case::<EA>("EA", text, sink);
+    }
     // the library's own errors
     use varlink_service::Error as SE;
     let t = "varlink_service::Error";
